@@ -4,6 +4,7 @@ from . import core, storegen, c04
 RULE = ("store histories rich in redundant writes: the same value again inside a time step, in the next step, across the 65535-step block "
         "boundary and across encoder splits, in every order of 2/4/9-state values, VCD-text and pre-encoded writes, reals and strings; "
         "real code vs Lean Store model vs Spec.run, whose output is canonical by theorem (C06_no_repeat, C06_kind_minimal, C06_width). "
+        "Plus generated GHW files rich in sub-range aliases (values that reach the user through slice_signal / BitVectorBuilder, 1-bit slices of 9-state parents included) through the `ghw` three-way comparison of C11. "
         "non-trivial = at least one change loaded")
 
 
@@ -56,6 +57,12 @@ def requests(ctx):
     # redundancy across the block boundary
     for n in (65535, 65536):
         rq.append(storegen.gen_rollover(rng, n + 3, every=65534))
+    # values that reach the user through slice_signal (GHW sub-range aliases, 1-bit slices of 9-state parents included):
+    # the smallest kind / no-repetition rule holds for derived signals too
+    from . import ghwgen
+    for _ in range(150 if quick else 2000):
+        d, data = ghwgen.gen_case(rng, nitems=rng.choice([4, 8]), nsteps=rng.choice([4, 10]), alias_prob=0.6, allow_structs=False)
+        rq.append(f"ghw {d} {data.hex()}")
     return rq
 
 
